@@ -22,15 +22,22 @@ class Hist:
         self.hostile = hostile
         self.shadow = []       # kind per handle slot (None = empty / unknown)
         self.text = ""
+        self.kids = {}         # handle -> child handles as parsed (elements and the document only)
+        self.par = {}          # handle -> parent handle as parsed
+        self.pending = []      # operations queued by a targeted scenario
 
     # ---- initial document ---------------------------------------------------------------------------
     def gen_doc(self):
         r = self.r
         self.shadow = ["doc"]
 
-        def elem(depth):
+        def elem(depth, parent=0):
             name = r.choice(["r", "a", "b", "c"])
             self.shadow.append("elem")
+            me = len(self.shadow) - 1
+            self.kids[me] = []
+            self.kids.setdefault(parent, []).append(me)
+            self.par[me] = parent
             s = "<" + name
             used = set()
             for _ in range(r.choice([0, 0, 1, 2])):
@@ -47,43 +54,56 @@ class Hist:
                     self.shadow.append("text")
             kids = ""
             last_text = False
-            if depth < 2:
-                for _ in range(r.choice([0, 1, 2, 3])):
+            if depth < 3:
+                for _ in range(r.choice([0, 1, 2, 3]) if depth < 2 else r.choice([0, 0, 1])):
                     k = r.random()
                     if k < 0.3 and not last_text:
-                        kids += r.choice(["t", "hello", "x y"])
+                        kids += r.choice(["t", "hello", "x y", "a]]", "]", "]]"])
                         self.shadow.append("text")
+                        self.kids[me].append(len(self.shadow) - 1)
+                        self.par[len(self.shadow) - 1] = me
                         last_text = True
                         continue
                     last_text = False
                     if k < 0.4:
-                        kids += "<!--%s-->" % r.choice(["c", "a-b", ""])
+                        kids += "<!--%s-->" % r.choice(["c", "a-b", "", "a-x-b", "ab-c", "-x"])
                         self.shadow.append("comment")
                     elif k < 0.5:
                         kids += "<?%s%s?>" % (r.choice(["pi", "tg"]), r.choice(["", " d"]))
                         self.shadow.append("pi")
                     elif k < 0.58:
-                        kids += "<![CDATA[%s]]>" % r.choice(["cd", "a<b", ""])
+                        kids += "<![CDATA[%s]]>" % r.choice(["cd", "a<b", "", "]]x>", "]x]>"])
                         self.shadow.append("cdata")
                     elif k < 0.64:
                         kids += r.choice(["&amp;", "&#65;"])
                         self.shadow.append("ref")
                     else:
-                        kids += elem(depth + 1)
+                        kids += elem(depth + 1, me)
+                        continue
+                    self.kids[me].append(len(self.shadow) - 1)
+                    self.par[len(self.shadow) - 1] = me
             return s + ("/>" if not kids and r.random() < 0.5 else ">" + kids + "</" + name + ">")
 
         head = ""
+        self.kids[0] = []
+        if r.random() < 0.25:
+            head = "<!DOCTYPE r>"
+            self.shadow.append("doctype")
+            self.kids[0].append(len(self.shadow) - 1)
         if r.random() < 0.2:
-            head = "<!--top-->"
+            head += "<!--top-->"
             self.shadow.append("comment")
+            self.kids[0].append(len(self.shadow) - 1)
         if r.random() < 0.15:
             head += "<?pi h?>"
             self.shadow.append("pi")
+            self.kids[0].append(len(self.shadow) - 1)
         body = elem(0)
         tail = ""
         if r.random() < 0.15:
             tail = "<!--end-->"
             self.shadow.append("comment")
+            self.kids[0].append(len(self.shadow) - 1)
         self.text = head + body + tail
         return self.text
 
@@ -105,16 +125,83 @@ class Hist:
         r = self.r
         if r.random() < self.hostile:
             return "".join(r.choice(ALPHA) for _ in range(r.randint(0, 4)))
-        return r.choice(["t", "ab", "x y", "é", "12", "", "a-b"])
+        return r.choice(["t", "ab", "x y", "é", "12", "", "a-b", "a]]", ">b", "]", "]>x", "a-x-b", "ab-c", "]]x>"])
 
     def h(self, i):
         return "h%d" % i
 
-    def op(self):
+    def descendants(self, h):
+        out = []
+        for k in self.kids.get(h, []):
+            out.append(k)
+            out += self.descendants(k)
+        return out
+
+    def scenario(self):
+        """a short targeted sequence (queued): the situations single random calls rarely reach"""
         r = self.r
         k = r.random()
+        elems = [h for h, kind in enumerate(self.shadow) if kind == "elem" and h in self.kids]
+        if k < 0.35 and elems:
+            # a node is handed to one of its own descendants - attached, or detached first
+            x = r.choice(elems)
+            ds = [d for d in self.descendants(x) if self.shadow[d] == "elem"]
+            if ds:
+                y = r.choice(ds)
+                seq = []
+                if r.random() < 0.6 and x in self.par:
+                    seq.append("rm:%s:%s" % (self.h(self.par[x]), self.h(x)))
+                kk = r.random()
+                if kk < 0.4:
+                    seq.append("ap:%s:%s" % (self.h(y), self.h(x)))
+                elif kk < 0.7:
+                    ref = self.kids.get(y) or None
+                    seq.append("ib:%s:%s:%s" % (self.h(y), self.h(x), self.h(ref[0]) if ref else "-"))
+                else:
+                    ref = self.kids.get(y) or None
+                    seq.append("rc:%s:%s:%s" % (self.h(y), self.h(x), self.h(ref[0]) if ref else self.h(x)))
+                return seq
+        if k < 0.55:
+            # the document and its unique children: document element and document type taken out and put back
+            root = [h for h in self.kids.get(0, []) if self.shadow[h] == "elem"]
+            dts = [h for h in self.kids.get(0, []) if self.shadow[h] == "doctype"]
+            seq = []
+            if root and r.random() < 0.7:
+                seq.append("rm:h0:%s" % self.h(root[0]))
+            if dts:
+                seq.append(r.choice(["ap:h0:%s", "ib:h0:%s:-", "rm:h0:%s"]) % self.h(dts[0]))
+                if r.random() < 0.5:
+                    seq.append("ap:h0:%s" % self.h(dts[0]))
+            if root:
+                seq.append(r.choice(["ap:h0:%s", "ib:h0:%s:-"]) % self.h(root[0]))
+            if seq:
+                return seq
+        if k < 0.8 and elems:
+            # two text nodes side by side whose data only together are markup-significant
+            e = r.choice(elems)
+            a, b = r.choice([("a]]", ">b"), ("]", "]>"), ("x", "y"), ("a]", "]>b"), ("&", "amp;")])
+            n = len(self.shadow)
+            self.shadow += ["text", "text"]
+            return ["ct:" + enc2(a), "ap:%s:%s" % (self.h(e), self.h(n)), "ct:" + enc2(b), "ap:%s:%s" % (self.h(e), self.h(n + 1))]
+        # deleting exactly the characters that keep a forbidden sequence apart
+        cs = [h for h, kind in enumerate(self.shadow) if kind in ("comment", "cdata")]
+        if cs:
+            c = r.choice(cs)
+            return [r.choice(["dd:%s:2:1", "dd:%s:3:1", "dd:%s:1:1", "rd:%s:2:1:", "rd:%s:2:1:-", "dd:%s:2:2"]) % self.h(c)]
+        return []
+
+    def op(self):
+        r = self.r
+        if self.pending:
+            return self.pending.pop(0)
+        if r.random() < 0.12:
+            seq = self.scenario()
+            if seq:
+                self.pending = seq[1:]
+                return seq[0]
+        k = r.random()
         containers = ("elem", "doc", "attr")
-        leafs = ("text", "comment", "cdata", "pi", "ref", "elem")
+        leafs = ("text", "comment", "cdata", "pi", "ref", "elem", "elem", "doctype")
         if k < 0.16:
             name = r.choice(["ce", "ct", "cc", "cd", "cp", "ca", "cr"])
             if name == "ce":
@@ -183,7 +270,8 @@ class Hist:
     def history(self):
         self.gen_doc()
         n = self.r.randint(1, self.max_ops)
-        return self.text, [self.op() for _ in range(n)]
+        ops = [self.op() for _ in range(n)]
+        return self.text, ops + self.pending
 
 
 def canon_status(s):
